@@ -173,9 +173,10 @@ func cmdCheck(prop, tier string, keep bool) int {
 				undecided = append(undecided, n+"/exists")
 				continue
 			}
-			if k := oblSep(n); k >= 0 && strings.HasPrefix(n[k+1:], "safety:") && ownerSeen[owner] {
+			if k := oblSep(n); k >= 0 && (strings.HasPrefix(n[k+1:], "safety:") || strings.HasPrefix(n[k+1:], "owns:")) && ownerSeen[owner] {
 				// the function is still analysed and no longer performs the operation (dereference,
-				// index, division ...) this safety obligation guarded: nothing is left to prove
+				// index, division, access to a guarded field, call of a lock-requiring helper ...) that
+				// this safety / ownership obligation guarded: nothing is left to prove
 				fmt.Printf("NOTE: %s is no longer generated (the guarded operation was removed from %s)\n", n, owner)
 				continue
 			}
